@@ -180,7 +180,7 @@ func runChecksOnce(t *testing.T, sc *ChecksScenario, sched detsim.SchedConfig, h
 		if len(uris) > 1 {
 			fmt.Fprintf(&hcl, "  failover = [%s]\n", `"`+strings.Join(uris[1:], `", "`)+`"`)
 		}
-		fmt.Fprintf(&hcl, "  timeout = \"5s\"\n  required = %v\n  concurrency = 4\n  rateLimit = 1000000000\n}\n", sc.Required)
+		fmt.Fprintf(&hcl, "  timeout = \"5s\"\n  required = %v\n  concurrency = 4\n  rateLimit = 2000000000\n}\n", sc.Required)
 		hcl.WriteString("rule {\n  match { kind = \"alerting\" }\n  alerts {\n    range = \"1d\"\n    step = \"5m\"\n    resolve = \"5m\"\n  }\n  cost {}\n}\ncheck \"promql/series\" {\n  lookbackRange = \"1d\"\n}\n")
 		cfgPath := filepath.Join(dir, ".pint.hcl")
 		if err := os.WriteFile(cfgPath, []byte(hcl.String()), 0o644); err != nil {
@@ -202,7 +202,7 @@ func runChecksOnce(t *testing.T, sc *ChecksScenario, sched detsim.SchedConfig, h
 				if tag, ok := req.ConnTag.(connTag); ok {
 					mode = tag.mode
 				}
-				return simprom.Fault{Mode: mode, DelayNs: int64(1000 + req.ID)}
+				return simprom.Fault{Mode: mode}
 			}
 			idx := i
 			srv.StartCtx(nw, nil, func(k int, _ any) (simnet.DialAction, any) {
